@@ -7,7 +7,7 @@
    written from osmformat.proto. *)
 From Coq Require Import ZArith List Bool.
 From Verif Require Import Base.Int64 Pbf.Tree Pbf.Model Pbf.Spec Pbf.Header Pbf.CheckLib Pbf.ProofsArith Pbf.ProofsIndep
-     Pbf.ProofsDecode Pbf.ProofsDense Pbf.ProofsAll Pbf.ProofsHeader Pbf.ProofsFile.
+     Pbf.ProofsDecode Pbf.ProofsDense Pbf.ProofsAll Pbf.ProofsHeader Pbf.ProofsFile Pbf.ProofsNoPanic.
 Import ListNotations.
 Open Scope Z_scope.
 
@@ -117,3 +117,9 @@ Print Assumptions C01_scan_file_any_schedule.
 
 (* field_order_irrelevant (every layout / unknown fields) is not yet proved in Coq; it is checked per
    generated file by the correspondence run (judgements 1-3 of C01/Check.v). *)
+
+(* 6. the block decoder never panics, for every message tree, configuration and decoder state
+      (used by C06: a panic in a worker goroutine would be a process crash) *)
+Theorem C01_block_decoder_never_panics : forall c st m, scan_block c st m <> Panic.
+Proof. exact scan_block_never_panics. Qed.
+Print Assumptions C01_block_decoder_never_panics.
